@@ -48,6 +48,7 @@ from pdfminer.pdftypes import (
 from pdfminer.psexceptions import PSEOF
 from pdfminer.psparser import KWD, LIT, literal_name
 from pdfminer.utils import (
+    PDFDocEncoding,
     choplist,
     decode_text,
     format_int_alpha,
@@ -432,8 +433,29 @@ class PDFStandardSecurityHandler:
                 result = md5(result[:n]).digest()
         return result[:n]
 
+    @staticmethod
+    def _encode_password(password: str) -> Optional[bytes]:
+        """Convert a password to PDFDocEncoding (PDF 32000-1:2008, 7.6.3.3)
+
+        Returns None for a password that has no PDFDocEncoding representation;
+        such a password cannot be the right one.
+        """
+        codes = []
+        for char in password:
+            code = ord(char)
+            if code >= 256 or PDFDocEncoding[code] != char:
+                index = PDFDocEncoding.find(char)
+                if index >= 0:
+                    code = index
+                elif code >= 256:
+                    return None
+            codes.append(code)
+        return bytes(codes)
+
     def authenticate(self, password: str) -> Optional[bytes]:
-        password_bytes = password.encode("latin1")
+        password_bytes = self._encode_password(password)
+        if password_bytes is None:
+            return None
         key = self.authenticate_user_password(password_bytes)
         if key is None:
             key = self.authenticate_owner_password(password_bytes)
